@@ -38,6 +38,8 @@ ASSUMPTIONS = [
     "absolutely are not compared with the textbook value (the library floors variances at eps)",
     "the shape of bootstrap against-zero p-values for >2-D evaluations (one value per fold) is "
     "not asserted, only range and equivariance",
+    "synthetic Result objects carry n_rdm / n_pattern the way the evaluation routines pass them to "
+    "the constructor (fixed, bootstrap_rdm: n_rdm only; bootstrap_pattern: n_pattern only)",
     "exact values of bootstrap / rank-sum p-values are not asserted (the property states range, "
     "symmetry, diagonal and equivariance for them)",
 ]
@@ -519,10 +521,19 @@ def result_case(forms):
                      delta=draw(st.sampled_from([1 / 64.0, 0.125, 0.5, 2.0])))
         ci = draw(st.sampled_from([0.5, 0.9, 0.95]))
         blk = draw(eval_block(m, forms))
+        cv_name = CV_NAME[blk['form']]
+        if blk['form'] == 'boot2':
+            cv_name = draw(st.sampled_from(['bootstrap', 'bootstrap_rdm', 'bootstrap_pattern']))
+        blk['cv_method'] = cv_name
         if blk['form'] == 'crossvalidation':
             cov = None
         else:
             cov = draw(cov_input(m))
+            # as the evaluation routines do: only the resampled factor carries its n
+            if cv_name in ('fixed', 'bootstrap_rdm'):
+                cov['n_pattern'] = None
+            elif cv_name == 'bootstrap_pattern':
+                cov['n_rdm'] = None
         return dict(m=m, block=blk, cov=cov, dof=dof, perm=perm, shift=shift, ci=ci)
     return _case()
 
@@ -543,7 +554,8 @@ def build_result(case, perm=None, shift=None):
     if cov is not None:
         kw = dict(variances=np.array(cov['var'], dtype=float), n_rdm=cov['n_rdm'],
                   n_pattern=cov['n_pattern'])
-    res = lib(Result, models, ev, 'cosine', CV_NAME[blk['form']], nc, dof=case['dof'],
+    res = lib(Result, models, ev, 'cosine', blk.get('cv_method', CV_NAME[blk['form']]), nc,
+              dof=case['dof'],
               on_error='violation', sig='result:raises:Result', **kw)
     return res, ev, nc
 
@@ -743,7 +755,8 @@ def check_result(case):
 
 def classify_result(case):
     m, blk, cov = case['m'], case['block'], case['cov']
-    labels = ['form:' + blk['form'], 'ceiling:' + blk['nc_form'], 'models=%d' % m,
+    labels = ['form:' + blk['form'], 'cv:' + blk.get('cv_method', CV_NAME[blk['form']]),
+              'ceiling:' + blk['nc_form'], 'models=%d' % m,
               'nan-rows' if blk['nan_rows'] else 'no-nan-rows']
     offdiag = False
     if cov is not None:
